@@ -80,6 +80,8 @@ class TlcResult:
         self.generated = int(m.group(1)) if m else 0
         self.distinct = int(m.group(2)) if m else 0
         self.queue = int(m.group(3)) if m else 0
+        md = re.search(r"The depth of the complete state graph search is (\d+)", out)
+        self.depth = int(md.group(1)) if md else 0
         mi = _INIT.search(out)
         self.initial = int(mi.group(1)) if mi else 0
         self.transitions = max(self.generated - self.initial, 0)
@@ -100,15 +102,8 @@ class TlcResult:
         return cov
 
     def verdicts(self) -> list[list]:
-        """every PrintT(<<"V", ...>>) line parsed as a JSON-ish list"""
-        res = []
-        for m in _VERDICT.finditer(self.out):
-            body = m.group(1)
-            try:
-                res.append(json.loads("[" + _tla_to_json(body) + "]"))
-            except Exception:  # pragma: no cover - malformed line = machinery problem
-                raise Machinery(f"unparsable verdict line: {m.group(0)[:300]}")
-        return res
+        """every PrintT(<<"V", ...>>) value (possibly pretty-printed over several lines)"""
+        return extract_tuples(self.out, "V")
 
     def tail(self, n=40) -> str:
         return "\n".join(self.out.splitlines()[-n:])
@@ -116,10 +111,46 @@ class TlcResult:
 
 def _tla_to_json(s: str) -> str:
     # tuples <<a, b>> -> [a, b]; TRUE/FALSE -> true/false ; records not used in verdict lines
+    s = re.sub(r"\s*\n\s*", " ", s)
     s = s.replace("<<", "[").replace(">>", "]")
     s = re.sub(r"\bTRUE\b", "true", s)
     s = re.sub(r"\bFALSE\b", "false", s)
     return s
+
+
+def extract_tuples(out: str, tag: str) -> list[list]:
+    """all TLA+ tuples <<"tag", ...>> printed in `out`, bracket-matched, as Python lists (without the tag)"""
+    res = []
+    for m in re.finditer(r'<<\s*"' + re.escape(tag) + r'"\s*,', out):
+        i = m.start()
+        depth = 0
+        j = i
+        instr = False
+        while j < len(out):
+            ch = out[j]
+            if instr:
+                if ch == "\\":
+                    j += 1
+                elif ch == '"':
+                    instr = False
+            elif ch == '"':
+                instr = True
+            elif out.startswith("<<", j):
+                depth += 1
+                j += 1
+            elif out.startswith(">>", j):
+                depth -= 1
+                j += 1
+                if depth == 0:
+                    break
+            j += 1
+        body = out[i : j + 1]
+        try:
+            val = json.loads(_tla_to_json(body))
+        except Exception:
+            raise Machinery(f"unparsable TLC tuple: {body[:300]}")
+        res.append(val[1:])
+    return res
 
 
 _scratch_root = None
